@@ -6,6 +6,7 @@ import (
 	"sort"
 	"strings"
 	"testing"
+	"unicode/utf8"
 
 	"verif/harness/model"
 	"verif/harness/ops"
@@ -459,8 +460,12 @@ func c08Gen() *rapid.Generator[c08Case] {
 			default:
 				base = paths[rapid.IntRange(0, len(paths)-1).Draw(t, "under")] + "/"
 			}
-			name := rapid.SampledFrom([]string{"~x", "~y/z", "~.hidden", "~x y"}).Draw(t, "xname")
-			c.Extra = append(c.Extra, ops.FSEntry{Path: base + name, Kind: rapid.SampledFrom([]string{"d", "f"}).Draw(t, "xkind")})
+			name := rapid.SampledFrom([]string{"~x", "~y/z", "~.hidden", "~x y", "~x\xffy", "~\xc3", "~%s", "~a\\b"}).Draw(t, "xname")
+			kind := rapid.SampledFrom([]string{"d", "f"}).Draw(t, "xkind")
+			if !utf8.ValidString(name) {
+				kind = "f" // (a DIRECTORY with such a name makes the library's directory walk fail as a whole: an error either way)
+			}
+			c.Extra = append(c.Extra, ops.FSEntry{Path: base + name, Kind: kind})
 		}
 		return c
 	})
